@@ -20,7 +20,7 @@ int main(int argc, char **argv) {
   h.min_ = mn; h.step_ = step; h.periodic_ = periodic != 0;
   h.Process(v, scale);   // Eigen's index assertion (NDEBUG off), ASan and UBSan (float-cast-overflow, signed overflow) watch this call
   long changed = 0;
-  for (long i = 0; i < nbins; ++i) if (h.data_.y(i) != 0.0) { ++changed; if (h.data_.y(i) != scale) { printf("BAD bin %ld changed by %a, not by scale\n", i, h.data_.y(i)); return 1; } }
+  for (long i = 0; i < nbins; ++i) if (h.data_.y(i) != 0.0) { ++changed; printf("changed_bin=%ld\n", i); if (h.data_.y(i) != scale) { printf("BAD bin %ld changed by %a, not by scale\n", i, h.data_.y(i)); return 1; } }
   if (changed > 1) { printf("BAD %ld bins changed\n", changed); return 1; }
   printf("OK changed=%ld\n", changed);
   return 0;
